@@ -230,7 +230,7 @@ def _create_all(case: dict, inp: dict, root: str, state: dict, cats: dict) -> No
         pk["patch_centers"] = coords
     elif mode == "create":
         pk["patch_num"] = len(centers)
-        pk["probe_size"] = len(rec["ra"])
+        pk["probe_size"] = max(len(rec["ra"]), 10 * len(centers))  # below 10*k the library jumps to 100000*sqrt(k)
     path = os.path.join(root, "ref")
     if case["ref_source"] == "df":
         pid = inp["ref_ids"].astype("i8") if mode == "divide" else None
@@ -380,7 +380,7 @@ def run_case(case: dict) -> dict:
         saved_stream = ylog.Indicator.__init__.__kwdefaults__["stream"]
         ylog.Indicator.__init__.__kwdefaults__["stream"] = sink
         saved_tc = ycat.treecorr
-        ycat.treecorr = wl.SeededTreecorr(case["scene"]["data_seed"] % 9973)
+        seeded_tc = ycat.treecorr = wl.SeededTreecorr(case["scene"]["data_seed"] % 9973)
         try:
             verdict, world = fakempi.run_world(
                 sim, size, program, causal=case.get("causal", False), nodes=case.get("nodes"),
@@ -421,6 +421,9 @@ def run_case(case: dict) -> dict:
         )
         mwc = "1" if case["mw_measure"] == 1 else "other"
         sig = detail = None
+        if seeded_tc.degenerate:
+            sim.cleanup()
+            return dict(base, verdict="discard", detail="k-means produced a non-finite centre (degenerate input for patch_num)")
         try:
             errs = [(t.name, t.exc, t.tb) for t in sim.tasks if t.exc is not None]
             mism = sim.objects.get("collective_mismatch")
